@@ -736,3 +736,39 @@ def rule_init(ctx, R):
 
 
 RULES.append(("C01.INIT", "the initial state: empty stacks, command log and label table; stack 3 selected; no pending jump source", rule_init))
+
+
+def rule_stateapi(ctx, R):
+    """the small accessors both state representations implement: each reads or writes exactly the field it is named
+    after (a label is stored at the location it was given, the jump source is overwritten by every jump, the
+    selected stack is what was selected, a command is logged at the end and its index returned, ...)"""
+    from . import p_c06
+    fb = ctx.fb
+    A = {
+        "current_stack": [["RET(P1.cur)"]],
+        "set_current_stack": [["SET(P1.cur,P2)", "RET(K'()')"]],
+        "get_latest_loc": [["RET(P1.latest)"]],
+        "set_latest_loc": [["SET(P1.latest,Option::Some{P2})", "RET(K'()')"]],
+        "get_point": [["HashMap::get(P1.point,P2)", "Option::copied(HashMap::get(P1.point,P2))", "RET(Option::copied(HashMap::get(P1.point,P2)))"], ["HashMap::get(P1.point,P2)", "Option::cloned(HashMap::get(P1.point,P2))", "RET(Option::cloned(HashMap::get(P1.point,P2)))"]],
+        "set_point": [["HashMap::insert(P1.point,P2,P3)", "RET(K'()')"]],
+        "push_code": [["COLLECT(P1.code,P2)", "Vec::len(P1.code)", "RET((Vec::len(P1.code) Sub K1))"]],
+        "get_code": [["Index::index(P1.code,P2)", "RET(Index::index(P1.code,P2))"]],
+    }
+    n = 0
+    for impl in ("UnOptState", "OptState"):
+        for meth, accepted in A.items():
+            name = "<core::state::%s as hyeong::core::state::State>::%s" % (impl, meth)
+            if name not in fb.bodies:
+                continue
+            b, d = p_c06.fn_lang(fb, name, epsilon=set(), set_events=True)
+            R.analyse(name)
+            try:
+                words = sorted(d.enumerate_all(limit=20))
+            except RuntimeError:
+                words = None
+            n += 1
+            R.check(words is not None and len(words) == 1 and words[0] in accepted, "stateapi:%s:%s" % (impl, meth), "%s::%s does exactly what its name says: %s" % (impl, meth, words), b.span)
+    R.floor("state_accessors", n, 16, "accessors of the two state representations")
+
+
+RULES.append(("C01.STATEAPI", "the accessors of both state representations (selected stack, jump source, label table, command log) read and write exactly their field", rule_stateapi))
